@@ -981,7 +981,7 @@ package machine
 //@      && len(q.Called) == len(states) && (forall i int :: 0 <= i && i < len(states) ==> mem(q.Called, index(m.stateNames, states[i])))
 
 //@ func (m *Machine) IsQueued(mutType MutationType, states S, withoutArgsOnly bool, statesStrictEqual bool, minQueueTick uint64, isCheck bool, position Position) (found bool, idx uint16, qTick uint64)
-//@   props C04
+//@   props C04 C20
 //@   requires locks: unlocked(m.queueMx)
 //@   requires nn:    forall i int :: 0 <= i && i < len(m.queue) ==> m.queue[i] != nil
 //@   requires short: len(m.queue) <= 65535
